@@ -865,7 +865,19 @@ func registerStubs(w *World) {
 	S["strings.SplitN"] = func(in *Interp, fn *ssa.Function, a []Value) Value {
 		n, ok := a[2].(*Term).Int64Val()
 		if !ok {
-			in.unsupported("SplitN with symbolic count")
+			// symbolic count: only its relation to the (small, concrete) number of
+			// possible pieces matters
+			nt := a[2].(*Term)
+			n = -1
+			if !in.branch(Lt(nt, IntC(0))) {
+				max := a[0].(*StrV).Len() + 1
+				for k := 0; k <= max; k++ {
+					if in.branch(Eq(nt, IntC(int64(k)))) {
+						n = int64(k)
+						break
+					}
+				}
+			}
 		}
 		return splitN(in, a[0].(*StrV), a[1].(*StrV), int(n))
 	}
